@@ -487,7 +487,11 @@ def oracle(sc, o):
                     break
             complete = len(fixed) + len(rep) < len(obs) or t_seq_end < cut or (seq_end == len(msgs) and cut == INF)
             cache = None
-            if not [t for t in throws if t < min(t_seq_end, cut)] and not noreplay:
+            # a command that failed just before the suspension shows only when its exception is delivered to the plan,
+            # i.e. at the first thing the plan receives after the helper
+            nxt = next(((y, t) for y, t in zip(o["yields"], T["yields"]) if t > t0 and y[0] in plan_mids), None)
+            failed_before = nxt is not None and (nxt[0][1] in ("throw", "caught") or (isinstance(nxt[0][2], str) and nxt[0][2].startswith("exc:")))
+            if not [t for t in throws if t < min(t_seq_end, cut)] and not noreplay and not failed_before:
                 cache = expected_cache(sc, o, i, stmts)
             if cache == UNRESUMABLE:
                 # cross-check with C10: after clear_checkpoint a suspension request must end in FailedPause, not in a helper
